@@ -557,7 +557,7 @@ def run_worlds_c02(worlds, hashseed=0):
 def build_sequence_b(rng, nrounds):
     """wave 3 (seeded/C20_E, the half that changes applicability): ONE parsed domain whose Action objects are edited in place through the
     library's own API between applicability queries (c20.gen_sequence: add / remove precondition literals, groups and numeric conditions,
-    effects, change_signature and back); every answer is judged against the schema as the library's exporter dumps it at that moment"""
+    effects, change_signature and back); every answer is judged against the schema re-dumped from the live Action objects at that moment (ops_c20.dump_action)"""
     from . import c20
     for _ in range(50):
         w = gen_world_t(rng, max_actions=2)
@@ -581,7 +581,7 @@ def build_sequence_b(rng, nrounds):
 
 
 def sequence_worlds_b(seq, res):
-    """per epoch (the domain as exported after an edit) one world whose probes are the applicability queries made in that epoch"""
+    """per epoch (the domain as re-dumped after an edit) one world whose probes are the applicability queries made in that epoch"""
     if "epochs" not in res:
         raise RuntimeError("the implementation rejected a generated sequence world: %r\n%s" % (
             {k: res.get(k) for k in ("parse_raised", "problem_raised", "raised", "msg")}, seq["domain_text"]))
@@ -759,7 +759,7 @@ def generated_worlds(rng, tier):
         worlds.append(build_alias_b(rng, n_states=3, calls_per_action=4))
     for _ in range({"quick": 8, "thorough": 60}[tier]):
         worlds.append(gen_keyed_world(rng))
-    for _ in range({"quick": 24, "thorough": 240}[tier]):
+    for _ in range({"quick": 20, "thorough": 240}[tier]):
         worlds.append(gen_boundary_world(rng))
     # the same probes through Operators built without an object table: worlds with a universal precondition first
     usable = [wd for wd in worlds if not wd.get("keyed") and wd["probes"]]
@@ -769,7 +769,7 @@ def generated_worlds(rng, tier):
     cands = []
     for i in range(max(len(x) for x in streams)):        # two with a universal precondition (boundary table / ordinary), then one without
         cands += [x[i] for x in streams[:2] if i < len(x)] + ([streams[2][i // 2]] if i % 2 == 0 and i // 2 < len(streams[2]) else [])
-    worlds += [noobj_copy(wd) for wd in cands[:{"quick": 16, "thorough": 150}[tier]]]
+    worlds += [noobj_copy(wd) for wd in cands[:{"quick": 12, "thorough": 150}[tier]]]
     return worlds
 
 
@@ -807,8 +807,15 @@ def connectives(text):
 
 # ------------------------------------------------------------------------------------------------ the check
 def run(args):
+    import time
+    phases, t0 = {}, [time.time()]
+
+    def phase(name):
+        phases[name] = round(phases.get(name, 0.0) + time.time() - t0[0], 1)
+        t0[0] = time.time()
     rep = Report(PROP, args.tier, args.seed)
     standard_proof_part(rep, PROP)
+    phase("proofs")
     rng = random.Random(args.seed * 104729 + 2)
     cfg = run_impl([{"op": "core.numeric_config"}], nproc=1)[0]
     fixture_only = None
@@ -826,7 +833,7 @@ def run(args):
     else:
         worlds = corpus_worlds() + generated_worlds(rng, args.tier)
         jobs, exhaustive = scope_jobs(rng, args.tier)
-        seqs = [build_sequence_b(rng, rng.randint(3, 6)) for _ in range({"quick": 20, "thorough": 150}[args.tier])]
+        seqs = [build_sequence_b(rng, rng.randint(3, 6)) for _ in range({"quick": 16, "thorough": 150}[args.tier])]
     hashseeds = [0] if args.tier == "quick" else [0, 1, 2]
 
     stats = {"worlds": 0, "world_probes": 0, "world_app_true": 0, "world_app_false": 0, "world_app_raised": 0,
@@ -860,8 +867,8 @@ def run(args):
 
     # ---- worlds (every hash seed: the library's sets are hash-ordered), then the shipped fixtures (one hash seed)
     def world_stream(hs, ws, results, count):
-        for start in range(0, len(ws), 150):
-            chunk = list(zip(ws[start:start + 150], results[start:start + 150]))
+        for start in range(0, len(ws), 320):
+            chunk = list(zip(ws[start:start + 320], results[start:start + 320]))
             lits, units = [], []
             for wd, res in chunk:
                 lit, u = world_literal(wd, res, STATED_EPS.hex())
@@ -905,10 +912,19 @@ def run(args):
                     for f in wd["features"]:
                         stats["features"][f] = stats["features"].get(f, 0) + 1
 
+    phase("generation")
+    fw, fr = [], []
+    if fixture_only is not None or not args.replay:
+        fw, fr = fixture_worlds(rng, args.tier, fixture_only)
+        if fixture_only is not None:       # the replayed probe is one state of one call
+            k = fixture_only["state_index"]
+            fw[0]["probes"], fr[0]["probes"] = fw[0]["probes"][k:k + 1], fr[0]["probes"][k:k + 1]
+        stats["fixtures"] = len(fw)
+    phase("fixtures (implementation)")
     for si, hs in enumerate(hashseeds):
-        world_stream(hs, worlds, run_worlds_c02(worlds, hashseed=hs), si == 0)
+        results_w = run_worlds_c02(worlds, hashseed=hs)
+        sw, sr = [], []
         if seqs:
-            sw, sr = [], []
             jobs_q = [dict({k: v for k, v in q.items() if k != "state_values"}, op="c20.sequence") for q in seqs]
             for seq, res in zip(seqs, run_impl(jobs_q, hashseed=hs)):
                 ws1, rs1, edits = sequence_worlds_b(seq, res)
@@ -930,14 +946,10 @@ def run(args):
                                 stats["sequence_repeated_queries"] += 1
                                 stats["sequence_repeated_queries_whose_answer_changed"] += 1 if last[key][1] != ob["app"] else 0
                             last[key] = (pr["epoch"], ob["app"])
-            world_stream(hs, sw, sr, si == 0)
-    if fixture_only is not None or not args.replay:
-        fw, fr = fixture_worlds(rng, args.tier, fixture_only)
-        if fixture_only is not None:       # the replayed probe is one state of one call
-            k = fixture_only["state_index"]
-            fw[0]["probes"], fr[0]["probes"] = fw[0]["probes"][k:k + 1], fr[0]["probes"][k:k + 1]
-        stats["fixtures"] = len(fw)
-        world_stream(hashseeds[0], fw, fr, True)
+        phase("worlds and sequences (implementation)")
+        # one stream: generated worlds, the epochs of the sequences and (first hash seed) the shipped fixtures
+        world_stream(hs, worlds + sw + (fw if si == 0 else []), results_w + sr + (fr if si == 0 else []), si == 0)
+        phase("worlds, sequences, fixtures (Coq)")
 
     # ---- scope
     if jobs:
@@ -986,6 +998,7 @@ def run(args):
                                                    "nontrivial": nontrivial, "witness_of": None})
                             acc["verdicts"] += ch
 
+    phase("scope")
     decide(rep, PROP, "Corr.C02", acc["failing"], acc["verdicts"], acc["info"], explain_expr="explain_any %s",
            header_extra=HEADER, max_replays=5)
     cov = rep.coverage
@@ -994,6 +1007,7 @@ def run(args):
     cov["verdict_counts"]["."] = cov["verdict_counts"].get(".", 0) + acc["passed"]
     cov["distinct_nontrivial"] = len(acc["nontrivial"]) + acc["nontrivial_scope"]
     cov["input_distribution"] = stats
+    cov["phase_seconds"] = phases
     cov["hash_seeds"] = hashseeds
     cov["numeric_config"] = cfg
     cov["stated_epsilon"] = STATED_EPS
@@ -1027,15 +1041,15 @@ def run(args):
         "calls for F0empty F0const F0const0 F1t (sampled two-leaf formulas for the others); F2none / F0constnone / F0const0none: the same universes with Operators "
         "built WITHOUT an object table (problem_objects=None is not the empty table {}: there a universal condition counts as true -- oracle = the precondition with "
         "every forall erased, Corr.C02.erase_forall; model = is_applicable .. None); four more forall leaves in every family: a forall nested in a forall with two "
-        "variables, with the SAME variable twice, with the name of the parameter ?y twice, and an inner variable named like ?y.  Generated worlds: 24 (quick) / 240 "
+        "variables, with the SAME variable twice, with the name of the parameter ?y twice, and an inner variable named like ?y.  Generated worlds: 20 (quick) / 240 "
         "(thorough) boundary worlds -- a fresh leaf type tq whose inhabitants the generator controls (none at all / constants only / one object / object and "
         "constant) under an empty, a one-element or an ordinary object table, universal preconditions over tq (plain, below an or, around / inside another "
         "quantifier, the same variable name twice) and a forall-when effect over tq, calls binding constants where there is no object (counted per mode in "
         "boundary_probes); one ordinary world in six has 0 or 1 objects; half of the universal conditions of the ordinary worlds get a nested universal condition "
-        "(half of those reuse the variable name); 16 / 150 worlds are answered again by Operators built with problem_objects=None.  PROCESS-LEVEL SEQUENCES "
-        "(20 / 150 worlds): one parsed Domain whose Action objects are edited in place through the library's API between applicability queries (add / remove a "
+        "(half of those reuse the variable name); 12 / 150 worlds are answered again by Operators built with problem_objects=None.  PROCESS-LEVEL SEQUENCES "
+        "(16 / 150 worlds): one parsed Domain whose Action objects are edited in place through the library's API between applicability queries (add / remove a "
         "precondition literal, a nested group, a numeric condition, effects, change_signature and back; fresh Operator or the same Operator object re-grounded); "
-        "every answer is judged against the schema as the library's exporter dumps it at that moment (counted: sequence_*).  "
+        "every answer is judged against the schema re-dumped from the live Action objects at that moment (counted: sequence_*).  "
         "A probe is non-trivial when its formula has >= 2 connectives and (scope) the run contains both a true and a false "
         "instance of that formula / (worlds) the state has facts; distinct by input hash.")
     cov["samples"] = [m["formula"] for j in jobs[:2] for m in j["meta"][:2]] + [acc["sample"]]
